@@ -49,18 +49,18 @@ lemma LeafDotAll(l seq[Element], k int)
 // ---------------------------------------------------------------------------------------------
 pred WfDBI(db DBNodeMap) :=
      db != nil
-  && (forall k string :: {db[k]} k in db ==> db[k] != nil && allocated(db[k]) && arr(db[k].Elements) < alloc())
-  && (forall k1, k2 string :: {db[k1], db[k2]} k1 in db && k2 in db && k1 != k2 ==> db[k1] != db[k2])
+  && (forall k string :: {db[k]} k in db ==> mapget(db, k) != nil && allocated(mapget(db, k)) && arr(mapget(db, k).Elements) < alloc())
+  && (forall k1, k2 string :: {db[k1], db[k2]} k1 in db && k2 in db && k1 != k2 ==> mapget(db, k1) != mapget(db, k2))
 
 pred Inv(db DBNodeMap) :=
      WfDBI(db)
   && (forall k string :: {db[k]} (k in db) == (k in B0dom))
   // every list, resolved or not, still denotes the same amounts as the original recipe
-  && (forall k string, x string :: {Dot(elems(db[k].Elements), len(db[k].Elements), x)} k in db ==> Dot(elems(db[k].Elements), len(db[k].Elements), x) == V(k, x))
-  && (forall k string :: {db[k]} k in db ==> RankBelow(elems(db[k].Elements), len(db[k].Elements), rank(k)))
+  && (forall k string, x string :: {Dot(elems(db[k].Elements), len(db[k].Elements), x)} k in db ==> Dot(elems(mapget(db, k).Elements), len(mapget(db, k).Elements), x) == V(k, x))
+  && (forall k string :: {db[k]} k in db ==> RankBelow(elems(mapget(db, k).Elements), len(mapget(db, k).Elements), rank(k)))
 
 // a resolved recipe: no recipe name left, strictly sorted by name (hence no duplicates)
-pred Res(db DBNodeMap, k string) := AllLeaf(elems(db[k].Elements), len(db[k].Elements)) && SortedStrict(elems(db[k].Elements), len(db[k].Elements))
+pred Res(db DBNodeMap, k string) := AllLeaf(elems(mapget(db, k).Elements), len(mapget(db, k).Elements)) && SortedStrict(elems(mapget(db, k).Elements), len(mapget(db, k).Elements))
 
 func resolveNode returns (err)
   props C01 C11 C05
@@ -73,18 +73,18 @@ func resolveNode returns (err)
   ensures @monotone forall k string :: {db[k]} k in db && old(Res(db, k)) ==> Res(db, k)
   // existing arrays are never written: a resolved list is always built in a fresh array
   ensures @arrays forall a int :: {arrayat(Element, a)} a < old(alloc()) ==> arrayat(Element, a) == old(arrayat(Element, a))
-  ensures @fresh-or-same forall k string :: {db[k]} k in db ==> arr(db[k].Elements) == old(arr(db[k].Elements)) || fresh(arr(db[k].Elements))
+  ensures @fresh-or-same forall k string :: {db[k]} k in db ==> arr(mapget(db, k).Elements) == old(arr(mapget(db, k).Elements)) || fresh(arr(mapget(db, k).Elements))
   loop 1 {
     pre { unfold forall x string :: Dot(elems(#coll), 0, x); unfold forall x string :: SpecAmt(elems(nel), 0, x); unfold forall x string :: SpecHas(elems(nel), 0, x); unfold Distinct(elems(nel), len(nel)) }
-    invariant @params db == old(db) && name == old(name) && maxDepth == old(maxDepth) && level == old(level) && node == db[name] && name in db
+    invariant @params db == old(db) && name == old(name) && maxDepth == old(maxDepth) && level == old(level) && node == mapget(db, name) && name in db
     invariant @inv Inv(db)
     invariant @arrays forall a int :: {arrayat(Element, a)} a < old(alloc()) ==> arrayat(Element, a) == old(arrayat(Element, a))
-    invariant @fresh-or-same forall k string :: {db[k]} k in db ==> arr(db[k].Elements) == old(arr(db[k].Elements)) || fresh(arr(db[k].Elements))
+    invariant @fresh-or-same forall k string :: {db[k]} k in db ==> arr(mapget(db, k).Elements) == old(arr(mapget(db, k).Elements)) || fresh(arr(mapget(db, k).Elements))
     invariant @monotone forall k string :: {db[k]} k in db && old(Res(db, k)) ==> Res(db, k)
     // the list being iterated is the node's list at loop entry; it denotes V(name, .) and ranks below name
     invariant @cur arr(#coll) < old(alloc()) && (forall x string :: {Dot(elems(#coll), len(#coll), x)} Dot(elems(#coll), len(#coll), x) == V(name, x)) && RankBelow(elems(#coll), len(#coll), rank(name))
     // the new list: fresh array, distinct leaf names ranked below name, amounts = the expansion of the prefix
-    invariant @nel-own arr(nel) >= old(alloc()) && arr(nel) < alloc() && arr(nel) != 0 && (forall k string :: {db[k]} k in db ==> arr(db[k].Elements) != arr(nel))
+    invariant @nel-own arr(nel) >= old(alloc()) && arr(nel) < alloc() && arr(nel) != 0 && (forall k string :: {db[k]} k in db ==> arr(mapget(db, k).Elements) != arr(nel))
     invariant @nel-shape Distinct(elems(nel), len(nel)) && AllLeaf(elems(nel), len(nel)) && RankBelow(elems(nel), len(nel), rank(name))
     invariant @nel-amounts forall x string :: {SpecAmt(elems(nel), len(nel), x)} SpecAmt(elems(nel), len(nel), x) == Dot(elems(#coll), #i, x)
   }
@@ -104,8 +104,8 @@ func resolveNode returns (err)
     unfold forall x string :: SpecSAmt(elems(tm), 1.0, 1, x); unfold forall x string :: SpecSAmt(elems(tm), 1.0, 0, x)
     unfold forall x string :: SpecHas(elems(tm), 1, x); unfold forall x string :: SpecHas(elems(tm), 0, x)
   }
-  ghost after call 1 SumMerge { assert @lists-kept-recipe forall k string :: {db[k]} k in db ==> elems(db[k].Elements) == at(call, elems(db[k].Elements)); assert @recipe-wf WfDBI(db); assert @recipe-keys forall k string :: {db[k]} (k in db) == (k in B0dom); assert @recipe-denotes forall k string, x string :: {Dot(elems(db[k].Elements), len(db[k].Elements), x)} k in db ==> Dot(elems(db[k].Elements), len(db[k].Elements), x) == V(k, x); assert @recipe-ranks forall k string :: {db[k]} k in db ==> RankBelow(elems(db[k].Elements), len(db[k].Elements), rank(k)); assert @inv-kept-recipe Inv(db) }
-  ghost after call 2 SumMerge { assert @lists-kept-basic forall k string :: {db[k]} k in db ==> elems(db[k].Elements) == at(call, elems(db[k].Elements)); assert @basic-wf WfDBI(db); assert @basic-keys forall k string :: {db[k]} (k in db) == (k in B0dom); assert @basic-denotes forall k string, x string :: {Dot(elems(db[k].Elements), len(db[k].Elements), x)} k in db ==> Dot(elems(db[k].Elements), len(db[k].Elements), x) == V(k, x); assert @basic-ranks forall k string :: {db[k]} k in db ==> RankBelow(elems(db[k].Elements), len(db[k].Elements), rank(k)); assert @inv-kept-basic Inv(db) }
+  ghost after call 1 SumMerge { assert @lists-kept-recipe forall k string :: {db[k]} k in db ==> elems(mapget(db, k).Elements) == at(call, elems(mapget(db, k).Elements)); assert @recipe-wf WfDBI(db); assert @recipe-keys forall k string :: {db[k]} (k in db) == (k in B0dom); assert @recipe-denotes forall k string, x string :: {Dot(elems(db[k].Elements), len(db[k].Elements), x)} k in db ==> Dot(elems(mapget(db, k).Elements), len(mapget(db, k).Elements), x) == V(k, x); assert @recipe-ranks forall k string :: {db[k]} k in db ==> RankBelow(elems(mapget(db, k).Elements), len(mapget(db, k).Elements), rank(k)); assert @inv-kept-recipe Inv(db) }
+  ghost after call 2 SumMerge { assert @lists-kept-basic forall k string :: {db[k]} k in db ==> elems(mapget(db, k).Elements) == at(call, elems(mapget(db, k).Elements)); assert @basic-wf WfDBI(db); assert @basic-keys forall k string :: {db[k]} (k in db) == (k in B0dom); assert @basic-denotes forall k string, x string :: {Dot(elems(db[k].Elements), len(db[k].Elements), x)} k in db ==> Dot(elems(mapget(db, k).Elements), len(mapget(db, k).Elements), x) == V(k, x); assert @basic-ranks forall k string :: {db[k]} k in db ==> RankBelow(elems(mapget(db, k).Elements), len(mapget(db, k).Elements), rank(k)); assert @inv-kept-basic Inv(db) }
   ghost before call 1 Sort { let unsorted := elems(nel) }
   ghost after call 1 Sort {
     use PermAmtAll(unsorted, elems(nel), len(nel))
@@ -123,9 +123,9 @@ func resolveNode returns (err)
 // ---------------------------------------------------------------------------------------------
 pred Snapshot(db DBNodeMap) :=
      (forall k string :: {db[k]} (k in db) == (k in B0dom))
-  && (forall k string :: {db[k]} k in db ==> B0[k] == elems(db[k].Elements) && B0len[k] == len(db[k].Elements))
+  && (forall k string :: {db[k]} k in db ==> B0[k] == elems(mapget(db, k).Elements) && B0len[k] == len(mapget(db, k).Elements))
 pred NestedBelow(db DBNodeMap, depth int) :=
-  forall k string :: {db[k]} k in db ==> RankBelow(elems(db[k].Elements), len(db[k].Elements), rank(k)) && rank(k) < depth
+  forall k string :: {db[k]} k in db ==> RankBelow(elems(mapget(db, k).Elements), len(mapget(db, k).Elements), rank(k)) && rank(k) < depth
 
 func Resolve returns (out, err)
   props C01 C11 C05
@@ -134,14 +134,14 @@ func Resolve returns (out, err)
   modifies heap(DBNode)
   ensures @succeeds [C01 C11] err == nil && out == db
   ensures @resolved [C01] forall k string :: {db[k]} k in db ==> Res(db, k)
-  ensures @sum-of-products [C01] forall k string, x string :: {SpecAmt(elems(db[k].Elements), len(db[k].Elements), x)} k in db ==> SpecAmt(elems(db[k].Elements), len(db[k].Elements), x) == V(k, x)
+  ensures @sum-of-products [C01] forall k string, x string :: {SpecAmt(elems(db[k].Elements), len(db[k].Elements), x)} k in db ==> SpecAmt(elems(mapget(db, k).Elements), len(mapget(db, k).Elements), x) == V(k, x)
   ensures @same-recipes [C01] mapval(db) == old(mapval(db))
   ghost at entry { unfold forall k string, x string :: V(k, x) }
   loop 1 {
     invariant @inv Inv(db) && db == old(db) && c == old(c)
     invariant @done forall j int :: {#ord[j]} 0 <= j && j < #it ==> Res(db, #ord[j])
   }
-  ghost before return 1 { use forall k string, x string :: LeafDot(elems(db[k].Elements), len(db[k].Elements), x) }
+  ghost before return 1 { use forall k string, x string :: LeafDot(elems(mapget(db, k).Elements), len(mapget(db, k).Elements), x) }
 
 // ---------------------------------------------------------------------------------------------
 // The deprecated struct API is a second copy of the same code: it carries the same contracts
@@ -158,18 +158,18 @@ func (Resolver).resolveNode returns (err)
   ensures @monotone forall k string :: {r.db[k]} k in r.db && old(Res(r.db, k)) ==> Res(r.db, k)
   // existing arrays are never written: a resolved list is always built in a fresh array
   ensures @arrays forall a int :: {arrayat(Element, a)} a < old(alloc()) ==> arrayat(Element, a) == old(arrayat(Element, a))
-  ensures @fresh-or-same forall k string :: {r.db[k]} k in r.db ==> arr(r.db[k].Elements) == old(arr(r.db[k].Elements)) || fresh(arr(r.db[k].Elements))
+  ensures @fresh-or-same forall k string :: {r.db[k]} k in r.db ==> arr(mapget(r.db, k).Elements) == old(arr(mapget(r.db, k).Elements)) || fresh(arr(mapget(r.db, k).Elements))
   loop 1 {
     pre { unfold forall x string :: Dot(elems(#coll), 0, x); unfold forall x string :: SpecAmt(elems(nel), 0, x); unfold forall x string :: SpecHas(elems(nel), 0, x); unfold Distinct(elems(nel), len(nel)) }
-    invariant @params r == old(r) && name == old(name) && level == old(level) && node == r.db[name] && name in r.db
+    invariant @params r == old(r) && name == old(name) && level == old(level) && node == mapget(r.db, name) && name in r.db
     invariant @inv Inv(r.db)
     invariant @arrays forall a int :: {arrayat(Element, a)} a < old(alloc()) ==> arrayat(Element, a) == old(arrayat(Element, a))
-    invariant @fresh-or-same forall k string :: {r.db[k]} k in r.db ==> arr(r.db[k].Elements) == old(arr(r.db[k].Elements)) || fresh(arr(r.db[k].Elements))
+    invariant @fresh-or-same forall k string :: {r.db[k]} k in r.db ==> arr(mapget(r.db, k).Elements) == old(arr(mapget(r.db, k).Elements)) || fresh(arr(mapget(r.db, k).Elements))
     invariant @monotone forall k string :: {r.db[k]} k in r.db && old(Res(r.db, k)) ==> Res(r.db, k)
     // the list being iterated is the node's list at loop entry; it denotes V(name, .) and ranks below name
     invariant @cur arr(#coll) < old(alloc()) && (forall x string :: {Dot(elems(#coll), len(#coll), x)} Dot(elems(#coll), len(#coll), x) == V(name, x)) && RankBelow(elems(#coll), len(#coll), rank(name))
     // the new list: fresh array, distinct leaf names ranked below name, amounts = the expansion of the prefix
-    invariant @nel-own arr(nel) >= old(alloc()) && arr(nel) < alloc() && arr(nel) != 0 && (forall k string :: {r.db[k]} k in r.db ==> arr(r.db[k].Elements) != arr(nel))
+    invariant @nel-own arr(nel) >= old(alloc()) && arr(nel) < alloc() && arr(nel) != 0 && (forall k string :: {r.db[k]} k in r.db ==> arr(mapget(r.db, k).Elements) != arr(nel))
     invariant @nel-shape Distinct(elems(nel), len(nel)) && AllLeaf(elems(nel), len(nel)) && RankBelow(elems(nel), len(nel), rank(name))
     invariant @nel-amounts forall x string :: {SpecAmt(elems(nel), len(nel), x)} SpecAmt(elems(nel), len(nel), x) == Dot(elems(#coll), #i, x)
   }
@@ -189,8 +189,8 @@ func (Resolver).resolveNode returns (err)
     unfold forall x string :: SpecSAmt(elems(tm), 1.0, 1, x); unfold forall x string :: SpecSAmt(elems(tm), 1.0, 0, x)
     unfold forall x string :: SpecHas(elems(tm), 1, x); unfold forall x string :: SpecHas(elems(tm), 0, x)
   }
-  ghost after call 1 SumMerge { assert @lists-kept-recipe forall k string :: {r.db[k]} k in r.db ==> elems(r.db[k].Elements) == at(call, elems(r.db[k].Elements)); assert @recipe-wf WfDBI(r.db); assert @recipe-keys forall k string :: {r.db[k]} (k in r.db) == (k in B0dom); assert @recipe-denotes forall k string, x string :: {Dot(elems(r.db[k].Elements), len(r.db[k].Elements), x)} k in r.db ==> Dot(elems(r.db[k].Elements), len(r.db[k].Elements), x) == V(k, x); assert @recipe-ranks forall k string :: {r.db[k]} k in r.db ==> RankBelow(elems(r.db[k].Elements), len(r.db[k].Elements), rank(k)); assert @inv-kept-recipe Inv(r.db) }
-  ghost after call 2 SumMerge { assert @lists-kept-basic forall k string :: {r.db[k]} k in r.db ==> elems(r.db[k].Elements) == at(call, elems(r.db[k].Elements)); assert @basic-wf WfDBI(r.db); assert @basic-keys forall k string :: {r.db[k]} (k in r.db) == (k in B0dom); assert @basic-denotes forall k string, x string :: {Dot(elems(r.db[k].Elements), len(r.db[k].Elements), x)} k in r.db ==> Dot(elems(r.db[k].Elements), len(r.db[k].Elements), x) == V(k, x); assert @basic-ranks forall k string :: {r.db[k]} k in r.db ==> RankBelow(elems(r.db[k].Elements), len(r.db[k].Elements), rank(k)); assert @inv-kept-basic Inv(r.db) }
+  ghost after call 1 SumMerge { assert @lists-kept-recipe forall k string :: {r.db[k]} k in r.db ==> elems(mapget(r.db, k).Elements) == at(call, elems(mapget(r.db, k).Elements)); assert @recipe-wf WfDBI(r.db); assert @recipe-keys forall k string :: {r.db[k]} (k in r.db) == (k in B0dom); assert @recipe-denotes forall k string, x string :: {Dot(elems(r.db[k].Elements), len(r.db[k].Elements), x)} k in r.db ==> Dot(elems(mapget(r.db, k).Elements), len(mapget(r.db, k).Elements), x) == V(k, x); assert @recipe-ranks forall k string :: {r.db[k]} k in r.db ==> RankBelow(elems(mapget(r.db, k).Elements), len(mapget(r.db, k).Elements), rank(k)); assert @inv-kept-recipe Inv(r.db) }
+  ghost after call 2 SumMerge { assert @lists-kept-basic forall k string :: {r.db[k]} k in r.db ==> elems(mapget(r.db, k).Elements) == at(call, elems(mapget(r.db, k).Elements)); assert @basic-wf WfDBI(r.db); assert @basic-keys forall k string :: {r.db[k]} (k in r.db) == (k in B0dom); assert @basic-denotes forall k string, x string :: {Dot(elems(r.db[k].Elements), len(r.db[k].Elements), x)} k in r.db ==> Dot(elems(mapget(r.db, k).Elements), len(mapget(r.db, k).Elements), x) == V(k, x); assert @basic-ranks forall k string :: {r.db[k]} k in r.db ==> RankBelow(elems(mapget(r.db, k).Elements), len(mapget(r.db, k).Elements), rank(k)); assert @inv-kept-basic Inv(r.db) }
   ghost before call 1 Sort { let unsorted := elems(nel) }
   ghost after call 1 Sort {
     use PermAmtAll(unsorted, elems(nel), len(nel))
@@ -209,14 +209,14 @@ func (Resolver).Resolve returns (err)
   modifies heap(DBNode)
   ensures @succeeds [C01 C11] err == nil
   ensures @resolved [C01] forall k string :: {r.db[k]} k in r.db ==> Res(r.db, k)
-  ensures @sum-of-products [C01] forall k string, x string :: {SpecAmt(elems(r.db[k].Elements), len(r.db[k].Elements), x)} k in r.db ==> SpecAmt(elems(r.db[k].Elements), len(r.db[k].Elements), x) == V(k, x)
+  ensures @sum-of-products [C01] forall k string, x string :: {SpecAmt(elems(r.db[k].Elements), len(r.db[k].Elements), x)} k in r.db ==> SpecAmt(elems(mapget(r.db, k).Elements), len(mapget(r.db, k).Elements), x) == V(k, x)
   ensures @same-recipes [C01] mapval(r.db) == old(mapval(r.db))
   ghost at entry { unfold forall k string, x string :: V(k, x) }
   loop 1 {
     invariant @inv Inv(r.db) && r == old(r)
     invariant @done forall j int :: {#ord[j]} 0 <= j && j < #it ==> Res(r.db, #ord[j])
   }
-  ghost before return 1 { use forall k string, x string :: LeafDot(elems(r.db[k].Elements), len(r.db[k].Elements), x) }
+  ghost before return 1 { use forall k string, x string :: LeafDot(elems(mapget(r.db, k).Elements), len(mapget(r.db, k).Elements), x) }
 
 // ---------------------------------------------------------------------------------------------
 // Arbitrary (possibly cyclic) books: resolution terminates, never crashes, and fails whenever the recipe
@@ -226,13 +226,13 @@ func (Resolver).Resolve returns (err)
 // ---------------------------------------------------------------------------------------------
 fun Bad(k string) bool
 fun widx(k string) int
-pred BadInv(db DBNodeMap) := forall k string :: {widx(k)} Bad(k) ==> k in db && 0 <= widx(k) && widx(k) < len(db[k].Elements) && Bad(db[k].Elements[widx(k)].Name)
+pred BadInv(db DBNodeMap) := forall k string :: {widx(k)} Bad(k) ==> k in db && 0 <= widx(k) && widx(k) < len(mapget(db, k).Elements) && Bad(mapget(db, k).Elements[widx(k)].Name)
 
 func resolveNode variant any standalone returns (err)
   props C11 C08
-  ghost after call 1 SumMerge { assert @lists-kept-recipe forall k string :: {db[k]} k in db ==> elems(db[k].Elements) == at(call, elems(db[k].Elements)); assert @wf-kept-recipe WfDBI(db); assert @bad-kept-recipe badok ==> BadInv(db) }
-  ghost after call 2 SumMerge { assert @lists-kept-basic forall k string :: {db[k]} k in db ==> elems(db[k].Elements) == at(call, elems(db[k].Elements)); assert @wf-kept-basic WfDBI(db); assert @bad-kept-basic badok ==> BadInv(db) }
-  ghost after call 1 Sort { assert @lists-kept-sort forall k string :: {db[k]} k in db ==> elems(db[k].Elements) == at(call, elems(db[k].Elements)); assert @wf-kept-sort WfDBI(db); assert @bad-kept-sort badok ==> BadInv(db); assert @not-bad badok ==> !Bad(name) }
+  ghost after call 1 SumMerge { assert @lists-kept-recipe forall k string :: {db[k]} k in db ==> elems(mapget(db, k).Elements) == at(call, elems(mapget(db, k).Elements)); assert @wf-kept-recipe WfDBI(db); assert @bad-kept-recipe badok ==> BadInv(db) }
+  ghost after call 2 SumMerge { assert @lists-kept-basic forall k string :: {db[k]} k in db ==> elems(mapget(db, k).Elements) == at(call, elems(mapget(db, k).Elements)); assert @wf-kept-basic WfDBI(db); assert @bad-kept-basic badok ==> BadInv(db) }
+  ghost after call 1 Sort { assert @lists-kept-sort forall k string :: {db[k]} k in db ==> elems(mapget(db, k).Elements) == at(call, elems(mapget(db, k).Elements)); assert @wf-kept-sort WfDBI(db); assert @bad-kept-sort badok ==> BadInv(db); assert @not-bad badok ==> !Bad(name) }
   ghost before return 1 { assert @wf-final WfDBI(db); assert @bad-final badok ==> BadInv(db) }
   requires @wf WfDBI(db) && 0 <= level
   let badok := BadInv(db)
@@ -241,17 +241,17 @@ func resolveNode variant any standalone returns (err)
   ensures @wf WfDBI(db) && (badok ==> BadInv(db))
   ensures @cyclic-fails [C11] badok && Bad(name) ==> err != nil
   ensures @arrays forall a int :: {arrayat(Element, a)} a < old(alloc()) ==> arrayat(Element, a) == old(arrayat(Element, a))
-  ensures @fresh-or-same forall k string :: {db[k]} k in db ==> arr(db[k].Elements) == old(arr(db[k].Elements)) || fresh(arr(db[k].Elements))
+  ensures @fresh-or-same forall k string :: {db[k]} k in db ==> arr(mapget(db, k).Elements) == old(arr(mapget(db, k).Elements)) || fresh(arr(mapget(db, k).Elements))
   calluse resolveNode#1 any
   loop 1 {
     pre { unfold Distinct(elems(nel), len(nel)) }
-    invariant @params db == old(db) && name == old(name) && maxDepth == old(maxDepth) && level == old(level) && level < maxDepth && name in db && node == db[name]
+    invariant @params db == old(db) && name == old(name) && maxDepth == old(maxDepth) && level == old(level) && level < maxDepth && name in db && node == mapget(db, name)
     invariant @wf WfDBI(db) && (badok ==> BadInv(db))
     invariant @arrays forall a int :: {arrayat(Element, a)} a < old(alloc()) ==> arrayat(Element, a) == old(arrayat(Element, a))
-    invariant @fresh-or-same forall k string :: {db[k]} k in db ==> arr(db[k].Elements) == old(arr(db[k].Elements)) || fresh(arr(db[k].Elements))
+    invariant @fresh-or-same forall k string :: {db[k]} k in db ==> arr(mapget(db, k).Elements) == old(arr(mapget(db, k).Elements)) || fresh(arr(mapget(db, k).Elements))
     invariant @cur arr(#coll) < old(alloc()) && (badok && Bad(name) ==> widx(name) < len(#coll) && Bad(elems(#coll)[widx(name)].Name))
     invariant @not-past-the-cycle badok && Bad(name) ==> #i <= widx(name)
-    invariant @nel-own arr(nel) >= old(alloc()) && arr(nel) < alloc() && arr(nel) != 0 && Distinct(elems(nel), len(nel)) && (forall k string :: {db[k]} k in db ==> arr(db[k].Elements) != arr(nel))
+    invariant @nel-own arr(nel) >= old(alloc()) && arr(nel) < alloc() && arr(nel) != 0 && Distinct(elems(nel), len(nel)) && (forall k string :: {db[k]} k in db ==> arr(mapget(db, k).Elements) != arr(nel))
   }
 
 func Resolve variant any standalone returns (out, err)
@@ -290,9 +290,9 @@ func Resolve variant exact standalone returns (out, err)
 // the same for the deprecated struct API
 func (Resolver).resolveNode variant any standalone returns (err)
   props C11 C08
-  ghost after call 1 SumMerge { assert @lists-kept-recipe forall k string :: {r.db[k]} k in r.db ==> elems(r.db[k].Elements) == at(call, elems(r.db[k].Elements)); assert @wf-kept-recipe WfDBI(r.db); assert @bad-kept-recipe badok ==> BadInv(r.db) }
-  ghost after call 2 SumMerge { assert @lists-kept-basic forall k string :: {r.db[k]} k in r.db ==> elems(r.db[k].Elements) == at(call, elems(r.db[k].Elements)); assert @wf-kept-basic WfDBI(r.db); assert @bad-kept-basic badok ==> BadInv(r.db) }
-  ghost after call 1 Sort { assert @lists-kept-sort forall k string :: {r.db[k]} k in r.db ==> elems(r.db[k].Elements) == at(call, elems(r.db[k].Elements)); assert @wf-kept-sort WfDBI(r.db); assert @bad-kept-sort badok ==> BadInv(r.db); assert @not-bad badok ==> !Bad(name) }
+  ghost after call 1 SumMerge { assert @lists-kept-recipe forall k string :: {r.db[k]} k in r.db ==> elems(mapget(r.db, k).Elements) == at(call, elems(mapget(r.db, k).Elements)); assert @wf-kept-recipe WfDBI(r.db); assert @bad-kept-recipe badok ==> BadInv(r.db) }
+  ghost after call 2 SumMerge { assert @lists-kept-basic forall k string :: {r.db[k]} k in r.db ==> elems(mapget(r.db, k).Elements) == at(call, elems(mapget(r.db, k).Elements)); assert @wf-kept-basic WfDBI(r.db); assert @bad-kept-basic badok ==> BadInv(r.db) }
+  ghost after call 1 Sort { assert @lists-kept-sort forall k string :: {r.db[k]} k in r.db ==> elems(mapget(r.db, k).Elements) == at(call, elems(mapget(r.db, k).Elements)); assert @wf-kept-sort WfDBI(r.db); assert @bad-kept-sort badok ==> BadInv(r.db); assert @not-bad badok ==> !Bad(name) }
   ghost before return 1 { assert @wf-final WfDBI(r.db); assert @bad-final badok ==> BadInv(r.db) }
   requires @wf WfDBI(r.db) && 0 <= level
   let badok := BadInv(r.db)
@@ -301,17 +301,17 @@ func (Resolver).resolveNode variant any standalone returns (err)
   ensures @wf WfDBI(r.db) && (badok ==> BadInv(r.db))
   ensures @cyclic-fails [C11] badok && Bad(name) ==> err != nil
   ensures @arrays forall a int :: {arrayat(Element, a)} a < old(alloc()) ==> arrayat(Element, a) == old(arrayat(Element, a))
-  ensures @fresh-or-same forall k string :: {r.db[k]} k in r.db ==> arr(r.db[k].Elements) == old(arr(r.db[k].Elements)) || fresh(arr(r.db[k].Elements))
+  ensures @fresh-or-same forall k string :: {r.db[k]} k in r.db ==> arr(mapget(r.db, k).Elements) == old(arr(mapget(r.db, k).Elements)) || fresh(arr(mapget(r.db, k).Elements))
   calluse resolveNode#1 any
   loop 1 {
     pre { unfold Distinct(elems(nel), len(nel)) }
-    invariant @params r == old(r) && name == old(name) && level == old(level) && level < r.config.MaxDepth && name in r.db && node == r.db[name]
+    invariant @params r == old(r) && name == old(name) && level == old(level) && level < r.config.MaxDepth && name in r.db && node == mapget(r.db, name)
     invariant @wf WfDBI(r.db) && (badok ==> BadInv(r.db))
     invariant @arrays forall a int :: {arrayat(Element, a)} a < old(alloc()) ==> arrayat(Element, a) == old(arrayat(Element, a))
-    invariant @fresh-or-same forall k string :: {r.db[k]} k in r.db ==> arr(r.db[k].Elements) == old(arr(r.db[k].Elements)) || fresh(arr(r.db[k].Elements))
+    invariant @fresh-or-same forall k string :: {r.db[k]} k in r.db ==> arr(mapget(r.db, k).Elements) == old(arr(mapget(r.db, k).Elements)) || fresh(arr(mapget(r.db, k).Elements))
     invariant @cur arr(#coll) < old(alloc()) && (badok && Bad(name) ==> widx(name) < len(#coll) && Bad(elems(#coll)[widx(name)].Name))
     invariant @not-past-the-cycle badok && Bad(name) ==> #i <= widx(name)
-    invariant @nel-own arr(nel) >= old(alloc()) && arr(nel) < alloc() && arr(nel) != 0 && Distinct(elems(nel), len(nel)) && (forall k string :: {r.db[k]} k in r.db ==> arr(r.db[k].Elements) != arr(nel))
+    invariant @nel-own arr(nel) >= old(alloc()) && arr(nel) < alloc() && arr(nel) != 0 && Distinct(elems(nel), len(nel)) && (forall k string :: {r.db[k]} k in r.db ==> arr(mapget(r.db, k).Elements) != arr(nel))
   }
 
 func (Resolver).Resolve variant any standalone returns (err)
